@@ -48,6 +48,7 @@ func c13Case(c *lib.Ctx, idx uint64) {
 		UndefinedLocal: 15,
 		NoTimeZero:     true,
 		ZeroFieldDefs:  3,
+		RedefSimilar:   30,
 	}
 	if !rng.Chance(1, 4) {
 		o.Mesgs = lib.HostedMesgs(ft)
